@@ -146,6 +146,18 @@ pub fn gen_program_traced(rng: &mut Rng, cfg: &GenConfig) -> (Program, Vec<&'sta
     (Program { types: std_types(), expr, ty }, used)
 }
 
+fn mentions(e: &Expr, x: &str) -> bool {
+    let mut found = false;
+    e.visit(&mut |e| {
+        if let Expr::Var(y) = e {
+            if y == x {
+                found = true
+            }
+        }
+    });
+    found
+}
+
 fn pick_w(rng: &mut Rng, ws: &[u32]) -> usize {
     let total: u64 = ws.iter().map(|w| *w as u64).sum();
     if total == 0 {
@@ -289,7 +301,10 @@ impl<'r> Gen<'r> {
                 // sometimes return one of the parameters when the type fits
                 let fits: Vec<&Name> = ps.iter().zip(args).filter(|(_, t)| *t == &**r).map(|(p, _)| p).collect();
                 let body = if !fits.is_empty() && self.rng.chance(2, 3) { Expr::Var((*self.rng.pick(&fits)).clone()) } else { self.default_of(r) };
-                Expr::Lam(ps, Box::new(body))
+                let unused = ps.iter().any(|p| !mentions(&body, p));
+                let e = Expr::Lam(ps, Box::new(body));
+                let _ = unused;
+                Expr::Ann(Box::new(e), ty.clone())
             }
             Ty::Record(fs) => Expr::Record(fs.iter().map(|(n, t)| (n.clone(), self.default_of(t))).collect(), None),
             Ty::Tuple(ts) => Expr::Tuple(ts.iter().map(|t| self.default_of(t)).collect()),
@@ -301,7 +316,7 @@ impl<'r> Gen<'r> {
                         _ => Expr::Con("C".into(), vec![int(self.rng.range(0, 3)), Expr::Con("B".into(), vec![])]),
                     }
                 } else if self.rng.chance(1, 3) {
-                    Expr::Con("None".into(), vec![])
+                    Expr::Ann(Box::new(Expr::Con("None".into(), vec![])), ty.clone())
                 } else {
                     Expr::Con("Some".into(), vec![self.default_of(&args[0])])
                 }
@@ -331,7 +346,13 @@ impl<'r> Gen<'r> {
         self.budget -= 1;
         if self.rng.below(1000) < self.cfg.weights.error_pm as u64 {
             self.used.push("error");
-            return Expr::Error(self.rng.pick(&["boom", "e1", "bad thing", ""]).to_string());
+            let e = Expr::Error(self.rng.pick(&["boom", "e1", "bad thing", ""]).to_string());
+            // `error` has type `forall a . a`; in a record field / scrutinee position gluon keeps
+            // the polymorphic type (and its compiler panics on `let { g } = error ".."`): pin it
+            return match ty {
+                Ty::Int | Ty::Bool | Ty::Byte | Ty::Str | Ty::Char | Ty::Float => e,
+                _ => Expr::Ann(Box::new(e), ty.clone()),
+            };
         }
         let e = self.expr_(ty, d);
         if *ty == Ty::Int && self.rng.below(100) < self.cfg.weights.eff_pct as u64 {
@@ -607,7 +628,7 @@ impl<'r> Gen<'r> {
                         _ => Expr::Con("C".into(), vec![self.expr(&Ty::Int, d - 1), self.expr(ty, d - 1)]),
                     }
                 } else if self.rng.chance(1, 4) {
-                    Expr::Con("None".into(), vec![])
+                    Expr::Ann(Box::new(Expr::Con("None".into(), vec![])), ty.clone())
                 } else {
                     Expr::Con("Some".into(), vec![self.expr(&args[0], d - 1)])
                 }
@@ -641,11 +662,16 @@ impl<'r> Gen<'r> {
                     }
                     groups.last_mut().unwrap().push(p);
                 }
+                let unused = groups.iter().flatten().any(|p| !mentions(&body, p));
                 let mut e = body;
                 for g in groups.into_iter().rev() {
                     e = Expr::Lam(g, Box::new(e));
                 }
-                e
+                // a lambda with an unused parameter is generalised by gluon even as a record
+                // field / array element, which makes two such values of the "same" type differ
+                // (rank-n field types): pin the monomorphic type
+                let _ = unused;
+                Expr::Ann(Box::new(e), ty.clone())
             }
             _ => self.leaf(ty),
         }
@@ -685,6 +711,9 @@ impl<'r> Gen<'r> {
             fields.push((n.clone(), self.expr(t, d - 1)));
         }
         fields.extend(pending_over);
+        if fields.is_empty() {
+            return Expr::Record(fs.iter().map(|(n, t)| (n.clone(), self.expr(t, d - 1))).collect(), None);
+        }
         let base = self.expr(&base_ty, d - 1);
         if var_base {
             let b = self.fresh_unique("base");
